@@ -239,16 +239,28 @@ func TwinCompare(h *Hist, k int, a *Store) (sig, detail string, err error) {
 	} else {
 		class += "-no-context"
 	}
-	if len(distinctCh(op.Chs)) != len(op.Chs) {
+	dups := len(distinctCh(op.Chs)) != len(op.Chs)
+	if dups {
 		class += "-duplicates"
+	}
+	// the two families that are recorded as known findings get ONE stable signature each
+	family := func(what string) string {
+		pinMode := op.Mode == int(storage.ModePutUploadPin) || op.Mode == int(storage.ModePutRequestPin)
+		if what == "pin-index" && pinMode && dups {
+			return "batch-vs-seq:pin-mode-duplicate-pinned-once"
+		}
+		if op.Root >= 0 && (what == "error" || what == "gc-accounting") {
+			return "batch-vs-seq:context-bookkeeping-reads-committed-state"
+		}
+		return "batch-vs-seq:" + what + ":" + class
 	}
 	switch {
 	case (ia.Err != 0) != (firstErr != 0):
-		return "batch-vs-seq:error:" + class, fmt.Sprintf("batch err class %d, one-at-a-time err class %d", ia.Err, firstErr), nil
+		return family("error"), fmt.Sprintf("%s: batch err class %d, one-at-a-time err class %d", class, ia.Err, firstErr), nil
 	case ia.Err != 0:
 		return "", "", nil
 	case !reflect.DeepEqual(ia.Exist, exist):
-		return "batch-vs-seq:exists:" + class, fmt.Sprintf("batch exist=%v, one-at-a-time %v", ia.Exist, exist), nil
+		return family("exists"), fmt.Sprintf("%s: batch exist=%v, one-at-a-time %v", class, ia.Exist, exist), nil
 	case !reflect.DeepEqual(ia.Dump, db):
 		what := "state"
 		switch {
@@ -256,10 +268,10 @@ func TwinCompare(h *Hist, k int, a *Store) (sig, detail string, err error) {
 			what = "data-index"
 		case !reflect.DeepEqual(ia.Dump.Pin, db.Pin):
 			what = "pin-index"
-		case !reflect.DeepEqual(ia.Dump.GC, db.GC) || ia.Dump.GCSize != db.GCSize:
+		case !reflect.DeepEqual(ia.Dump.GC, db.GC) || ia.Dump.GCSize != db.GCSize || !reflect.DeepEqual(ia.Dump.Access, db.Access):
 			what = "gc-accounting"
 		}
-		return "batch-vs-seq:" + what + ":" + class, fmt.Sprintf("after batch: %+v\nafter one-at-a-time: %+v", ia.Dump, db), nil
+		return family(what), fmt.Sprintf("%s: after batch: %+v\nafter one-at-a-time: %+v", class, ia.Dump, db), nil
 	}
 	return "", "", nil
 }
